@@ -638,9 +638,9 @@ package server
 //@   at call Set#5 before
 //@     assert [C03,C06,C07:incoming-twin-new-entity] $arg0 == txn && len(key) == 40 && encBE16(key, 0) == 2 && encBE64(key, 2) == relatedid && encBE64(key, 10) == rid && encBE64(key, 18) == txnTime && encBE64(key, 26) == predid && encBE16(key, 34) == (e.IsDeleted ? 1 : 0) && encBE32(key, 36) == ds.InternalID
 //@   at call Set#6 before
-//@     assert [C03,C06,C07:incoming-tombstone-deleted-entity] $arg0 == txn && len(key) == 40 && encBE16(key, 0) == 2 && encBE64(key, 10) == rid && encBE64(key, 18) == txnTime && encBE64(key, 26) == p && encBE16(key, 34) == 1 && encBE32(key, 36) == ds.InternalID
+//@     assert [C03,C06,C07:incoming-tombstone-deleted-entity] $arg0 == txn && len(key) == 40 && encBE16(key, 0) == 2 && encBE64(key, 2) == referencedIds[$i8 + 1] && encBE64(key, 10) == rid && encBE64(key, 18) == txnTime && encBE64(key, 26) == p && encBE16(key, 34) == 1 && encBE32(key, 36) == ds.InternalID
 //@   at call Set#7 before
-//@     assert [C03,C06,C07:outgoing-tombstone-deleted-entity] $arg0 == txn && len(key) == 40 && encBE16(key, 0) == 3 && encBE64(key, 2) == rid && encBE64(key, 10) == txnTime && encBE64(key, 18) == p && encBE16(key, 34) == 1 && encBE32(key, 36) == ds.InternalID
+//@     assert [C03,C06,C07:outgoing-tombstone-deleted-entity] $arg0 == txn && len(key) == 40 && encBE16(key, 0) == 3 && encBE64(key, 2) == rid && encBE64(key, 10) == txnTime && encBE64(key, 18) == p && encBE64(key, 26) == referencedIds[$i8 + 1] && encBE16(key, 34) == 1 && encBE32(key, 36) == ds.InternalID
 //@   at call Set#8 before
 //@     assert [C03,C06,C07:outgoing-key-live] $arg0 == txn && len(key) == 40 && encBE16(key, 0) == 3 && encBE64(key, 2) == rid && encBE64(key, 10) == txnTime && encBE64(key, 18) == predid && encBE64(key, 26) == relatedid && encBE16(key, 34) == 0 && encBE32(key, 36) == ds.InternalID
 //@   at call Set#9 before
@@ -650,9 +650,9 @@ package server
 //@   at call Delete#2 before
 //@     assert [C06:delete-only-own-txn-incoming-tombstone] $arg0 == txn && encBE16(key, 0) == 2 && encBE64(key, 2) == relatedid && encBE64(key, 10) == rid && encBE64(key, 18) == txnTime && encBE64(key, 26) == predid && encBE16(key, 34) == 1 && encBE32(key, 36) == ds.InternalID
 //@   at call Set#10 before
-//@     assert [C03,C06,C07:incoming-tombstone-removed-ref] $arg0 == txn && len(key) == 40 && encBE16(key, 0) == 2 && encBE64(key, 10) == rid && encBE64(key, 18) == txnTime && encBE64(key, 26) == p && encBE16(key, 34) == 1 && encBE32(key, 36) == ds.InternalID
+//@     assert [C03,C06,C07:incoming-tombstone-removed-ref] $arg0 == txn && len(key) == 40 && encBE16(key, 0) == 2 && encBE64(key, 2) == referencedIds[$i14 + 1] && encBE64(key, 10) == rid && encBE64(key, 18) == txnTime && encBE64(key, 26) == p && encBE16(key, 34) == 1 && encBE32(key, 36) == ds.InternalID
 //@   at call Set#11 before
-//@     assert [C03,C06,C07:outgoing-tombstone-removed-ref] $arg0 == txn && len(key) == 40 && encBE16(key, 0) == 3 && encBE64(key, 2) == rid && encBE64(key, 10) == txnTime && encBE64(key, 18) == p && encBE16(key, 34) == 1 && encBE32(key, 36) == ds.InternalID
+//@     assert [C03,C06,C07:outgoing-tombstone-removed-ref] $arg0 == txn && len(key) == 40 && encBE16(key, 0) == 3 && encBE64(key, 2) == rid && encBE64(key, 10) == txnTime && encBE64(key, 18) == p && encBE64(key, 26) == referencedIds[$i14 + 1] && encBE16(key, 34) == 1 && encBE32(key, 36) == ds.InternalID
 //@   loop 1
 //@     invariant -1 <= $i && $i < len(entities)
 //@     invariant [C01,C02:skip-only-if-identical] firstG || wroteG || (!isnewG && ((hasLocalG && eqLocalG) || (!hasLocalG && hasStoredG && eqStoredG)))
